@@ -259,10 +259,24 @@ def run(ctx):
         del r["spec_q"]
     # ---- T: real pictures of lossy configurations
     cfgs, info = cc.configurations(ctx, only=lossy)
+    all_lossy = list(cfgs)
     limit = ctx.pick(500, 1500)
     if len(cfgs) > limit:
         step = len(cfgs) / float(limit)
         cfgs = [cfgs[int(i * step)] for i in range(limit)]
+    # boundary twins: the 8-bit bound of the HQ length fields is only at risk when one component takes (nearly) the
+    # whole slice, i.e. large budget class x flat content x no scaler override -- a three-way interaction the pairwise
+    # design does not guarantee.  Every HQ configuration with a large budget class gets a twin with those two
+    # dimensions overridden (the budget itself is still the one computed by CodecOps!PictureBytes).
+    twins = []
+    for c in all_lossy:
+        if c["cfg"]["mode"] == "hq_lossy" and c["cfg"]["pb"] in ("scaler", "edge255", "edge256") and not (c["cfg"]["content"] == "zeros" and c["cfg"]["minscaler"] == 1):
+            twins.append({"cfg": dict(c["cfg"], content="zeros", minscaler=1, minq=0), "outcome": c["outcome"]})
+    tw_limit = ctx.pick(150, 1000)
+    if len(twins) > tw_limit:
+        step = len(twins) / float(tw_limit)
+        twins = [twins[int(i * step)] for i in range(tw_limit)]
+    cfgs = cfgs + twins
     jobs = [{"tid": 100000 + i, "cfg": c["cfg"], "outcome": c["outcome"], "seed": ctx.seed * 1000003 + i, "max_pictures": ctx.pick(2, 4)} for i, c in enumerate(cfgs)]
     results = common.pmap(record_pictures, jobs)
     pic_records = []
@@ -317,6 +331,7 @@ def run(ctx):
             "quantize_to_fit_instances_judged_by_trace_spec": len(fit_records),
             "quantize_to_fit_spec_q_differs": spec_q_dis,
             "lossy_configurations": len(cfgs),
+            "boundary_twins": len(twins),
             "coded_pictures": len(pic_records),
             "run_status": status,
             "slices_by_choice": qhist,
